@@ -3,3 +3,5 @@ import BufrProps.C05
 #print axioms Bufr.C05.C05_expansion_bounded
 #print axioms Bufr.C05.C05_reader_in_bounds
 #print axioms Bufr.C05.C05_element_shape
+#print axioms Bufr.C05.C05_bitmap_in_bounds
+#print axioms Bufr.C05.C05_bitmap_step
